@@ -221,6 +221,138 @@ def rule_r5(chk, db):
                     "EpochSeconds is parsed with %s and formatted with %s" % (sorted(pa["EpochSeconds"][1]), sorted(fa["EpochSeconds"][1])))
 
 
+POW10 = {10 ** k: k for k in range(1, 20)}
+LIB_FRACTION = {"nanosecond": 9, "microsecond": 6, "millisecond": 3, "subsec_nanos": 9, "subsec_nanoseconds": 9, "subsec_micros": 6, "subsec_microseconds": 6,
+                "subsec_millis": 3, "subsec_milliseconds": 3}
+INT_TYS = ("i8", "u8", "i16", "u16", "i32", "u32", "i64", "u64", "i128", "u128", "isize", "usize")
+
+
+def rule_r7(chk, db):
+    """EpochSeconds as decimal text `<whole>.<fraction>`: where the formatter prints the sub-second part from an integer (a remainder modulo
+    10^k, or the time crate's nanosecond() / millisecond()), (a) the digits are zero-padded to k places (`.050` must not become `.5`), and (b)
+    whole part and fraction are sign-and-magnitude (truncating division of the magnitude), not floor / euclidean division of a signed value
+    (-0.5 s must not be written `-1.5`).  A float Display of the seconds is exempt (its precision is value-level, not decided)."""
+    from .. import fmtspec
+    f = inline.inlined(db, db.body(TS + "Timestamp::format"))
+    if f is None:
+        raise AnchorMissing("Timestamp::format not found")
+    bodies = db.nested(f) if hasattr(f, "children") else [f]
+    n_src = n_float = 0
+    for b in [f] + [x for x in bodies if x is not f]:
+        b.defs()
+        K = {}          # local -> (digits, how, bi)
+        changed = True
+        it = 0
+        while changed and it < 20:
+            changed = False
+            it += 1
+            for bi, si, st in b.stmts():
+                d = st["dst"]
+                if d["proj"] or d["l"] in K:
+                    continue
+                rv = st["rv"]
+                ty = b.locals[d["l"]] if d["l"] < len(b.locals) else ""
+                k = None
+                if rv["k"] == "bin" and rv["op"] == "Rem" and ty in INT_TYS:
+                    c = flow.const_int_eval(b, rv["ops"][1])
+                    if c in POW10:
+                        src = flow.op_place(rv["ops"][0])
+                        sty = b.locals[src["l"]] if src is not None and src["l"] < len(b.locals) else ""
+                        k = (POW10[c], "rem-signed" if sty.startswith("i") and not _from_magnitude(b, rv["ops"][0]) else "rem", bi)
+                elif rv["k"] == "bin" and rv["op"] == "Div":
+                    pl = flow.op_place(rv["ops"][0])
+                    c = flow.const_int_eval(b, rv["ops"][1])
+                    if pl is not None and not pl["proj"] and pl["l"] in K and c in POW10 and K[pl["l"]][0] > POW10[c]:
+                        k = (K[pl["l"]][0] - POW10[c], K[pl["l"]][1], bi)
+                elif rv["k"] in ("use", "ref") or (rv["k"] == "cast" and ty in INT_TYS):
+                    pl = flow.op_place(rv["ops"][0]) if rv.get("ops") else None
+                    if pl is not None and pl["l"] in K and not [e for e in pl["proj"] if e != "*"]:
+                        k = K[pl["l"]]
+                if k is not None:
+                    K[d["l"]] = k
+                    changed = True
+            for bi, t in b.calls():
+                dl = t["dst"]["l"]
+                if t["dst"]["proj"] or dl in K:
+                    continue
+                nm = short(callee_def(t))
+                ty = b.locals[dl] if dl < len(b.locals) else ""
+                k = None
+                if nm in LIB_FRACTION and (callee_def(t).startswith("time::") or "Duration" in callee_def(t)):
+                    k = (LIB_FRACTION[nm], "lib", bi)
+                elif nm == "rem_euclid" and len(t["args"]) == 2 and flow.const_int_eval(b, t["args"][1]) in POW10:
+                    src = flow.op_place(t["args"][0])
+                    sty = b.locals[src["l"]] if src is not None and src["l"] < len(b.locals) else ""
+                    k = (POW10[flow.const_int_eval(b, t["args"][1])], "euclid-signed" if sty.startswith("i") and not _from_magnitude(b, t["args"][0]) else "rem", bi)
+                elif nm in ("unsigned_abs", "abs", "clone", "from", "into") and ty in INT_TYS and t["args"]:
+                    pl = flow.op_place(t["args"][0])
+                    if pl is not None and pl["l"] in K and not [e for e in pl["proj"] if e != "*"]:
+                        k = (K[pl["l"]][0], "rem" if nm in ("unsigned_abs", "abs") else K[pl["l"]][1], K[pl["l"]][2])
+                if k is not None:
+                    K[dl] = k
+                    changed = True
+        origins = sorted({v[2] for v in K.values()})
+        n_src += len(origins)
+        # sinks: Display arguments and to_string
+        verdicts = {}
+        for a in fmtspec.arguments_calls(b):
+            for i, (kind, vop, abi) in enumerate(a["args"]):
+                if vop is None:
+                    continue
+                root = _root_local(b, vop)
+                ty = b.locals[root] if root is not None and root < len(b.locals) else ""
+                if ty in ("f64", "f32") and kind == "new_display":
+                    n_float += 1
+                if root not in K:
+                    continue
+                digits, how, obi = K[root]
+                specs = [p[2] for p in (a["pieces"] or []) if p[0] == "arg" and p[1] == i]
+                w = [fmtspec.zero_padded_width(sp) for sp in specs]
+                bad = None
+                if a["pieces"] is None or not specs:
+                    bad = "its format specification cannot be read"
+                elif any(x != digits for x in w):
+                    bad = "it is printed %s: leading zeros of the fraction are lost (`.050` becomes `.5`)" % (
+                        "without zero padding" if any(x is None for x in w) else "padded to %s digits instead of %d" % (w, digits))
+                elif how in ("euclid-signed", "rem-signed"):
+                    bad = ("it is the euclidean remainder of a signed count, so before 1970 the whole part is the floor and the text denotes another instant (-0.5 s is written `-1.5`)"
+                           if how == "euclid-signed" else "it is the remainder of a signed count and carries its sign into the fraction digits")
+                verdicts.setdefault(obi, []).append(bad)
+        for bi, t in b.calls():
+            if short(callee_def(t)) in ("to_string", "format") and t["args"] and ("ToString" in callee_def(t) or "itoa" in callee_def(t)):
+                root = _root_local(b, t["args"][-1])
+                if root in K:
+                    verdicts.setdefault(K[root][2], []).append("it is converted with %s, which does not pad: leading zeros of the fraction are lost" % short(callee_def(t)))
+        for obi in origins:
+            bads = [x for x in verdicts.get(obi, []) if x]
+            chk.verdict(not bads, "R7", "epoch-fraction#%d" % origins.index(obi), b.loc(obi),
+                        "the sub-second part of EpochSeconds is printed from an integer, but %s" % "; ".join(bads), nontrivial=True)
+    chk.floor("R7", n_src + n_float, 1, "sub-second sources (integer remainders / float Display) in Timestamp::format")
+
+
+def _root_local(b, op, depth=0):
+    """local a formatted value is read from, through references, copies and the argument tuple of format_args!"""
+    pl = flow.op_place(op)
+    if pl is None or depth > 10:
+        return None
+    fl = [e for e in pl["proj"] if isinstance(e, dict) and "f" in e]
+    df = flow.single_def(b, pl["l"])
+    if df is None or df["kind"] != "assign" or df.get("proj"):
+        return pl["l"] if not fl else None
+    rv = df["rv"]
+    if fl and rv["k"] == "agg" and rv.get("agg") == "tuple" and fl[0]["f"] < len(rv["ops"]):
+        return _root_local(b, rv["ops"][fl[0]["f"]], depth + 1)
+    if not fl and rv["k"] in ("use", "ref") and rv.get("ops") and flow.op_place(rv["ops"][0]) is not None:
+        return _root_local(b, rv["ops"][0], depth + 1)
+    return pl["l"] if not fl else None
+
+
+def _from_magnitude(b, op):
+    """the operand is an absolute value (unsigned_abs / abs) or unsigned"""
+    sl = flow.backward(b, op)
+    return any(short(callee_def(t)) in ("unsigned_abs", "abs") for _, t, _ in sl.calls)
+
+
 def rule_r2(chk, db):
     """copy source: the formatter is the inverse of the parser with respect to percent-coding"""
     p = inline.inlined(db, db.body("s3s::dto::copy_source::CopySource::parse"))
@@ -540,6 +672,8 @@ def run(chk, db, tier):
     chk.guard("R4", rule_r4, db)
     chk.guard("R5", rule_r5, db)
     chk.guard("R6", rule_r6, db)
+    chk.rule("R7", "EpochSeconds text: an integer sub-second part is zero-padded to its full width and is sign-and-magnitude, not a euclidean remainder")
+    chk.guard("R7", rule_r7, db)
     # prerequisite for "names the same bucket and key for every legal key": the validators run on the very values that are stored
     from . import c12
     from ..report import Sub
@@ -556,6 +690,6 @@ META = {
                    "acceptance is dominated by the 2^63-1 bounds and first <= last; (d) the intervals Range::check returns are bounded by the "
                    "object length (difference-bound derivation); (e) digit runs are non-empty and fully consumed. Round-trip identity in general "
                    "and the rest of the RFC 9110 grammar are value-level and not decided.",
-    "not_decided": ["round-trip identity in general", "RFC 9110 grammar exactness beyond bounds and digit runs", "mime handling", "EpochSeconds float formatting precision"],
+    "not_decided": ["round-trip identity in general", "RFC 9110 grammar exactness beyond bounds and digit runs", "mime handling", "EpochSeconds float formatting precision (the integer form is decided by R7)"],
     "assumptions": ["rustc nightly MIR construction", "time crate: to_offset keeps the instant, replace_offset keeps the clock fields; assume_utc/from_unix_timestamp* yield UTC"],
 }
